@@ -1337,6 +1337,10 @@ class Ev(object):
                 items[k.v] = v
                 env["locals"][t.value.id] = TupleV(items, "list")
                 return True
+            if local and isinstance(base, (App, TupleV)) and not isinstance(t.slice, ast.Slice):
+                # functional update of a local (non-parameter) sequence/mapping value
+                env["locals"][t.value.id] = mk_app("setitem", (base, k, v))
+                return True
             st.log.append(("sub-store", base, k, v, site, _base_name(t.value)))
             return True
         if isinstance(t, ast.Starred):
